@@ -35,7 +35,7 @@ from . import c13_model as M
 PID = "C13"
 RULE = ("Hypothesis-generated cases, one per worker task: a Cartesian field with 2-3 components, each 0-3 terms "
     "c*x^i*y^j*z^l of total degree <= 3 with rational c (minorities: one sin/cos(kappa*coordinate) factor on "
-    "rectangles/boxes, a symbolic coefficient k, a symbolic radius R, construction by lambda or from_vector, calls "
+    "rectangles/boxes, a symbolic coefficient k, a symbolic radius R, weak / strong fields (every coefficient times an exact 1e-11 .. 1e9),  construction by lambda or from_vector, calls "
     "through the laws/fields wrappers) on a region drawn from: ellipse/circle disc with flat, tilted, paraboloid or "
     "cone cap (Stokes), planar ellipse/circle and rectangle (Green; region parametrised and implicit), tilted "
     "rectangle with four straight edges (Stokes), box with six outward faces, optionally with a tilted top plane = "
@@ -153,7 +153,23 @@ STRATA = (("stokes", "disc", 5), ("stokes", "rect", 3), ("green", "disc", 4), ("
     ("gauss_curv", "cyl", 2), ("gauss_curv", "sph", 1))
 
 
+_FSCALES = ["1/100000000000", "1/1000000000000", "3/20000000000", "1000000000/1"]
+
+
 def make_case(rnd: Any, thm: str, shape: str) -> dict[str, Any]:
+    """A case; one in five Cartesian cases has a WEAK or STRONG field: every coefficient times an exact 1e-11 .. 1e9 (both
+    sides of each theorem are linear in the field, values stay exact rationals times pi)."""
+    case = _make_case(rnd, thm, shape)
+    if thm != "gauss_curv" and _chance(rnd, 1, 5):
+        f = M.Rational(rnd.choice(_FSCALES))
+        for comp in case["field"]["comps"]:
+            for term in comp:
+                term["c"] = str(M.Rational(term["c"]) * f)
+        case["fscale"] = str(f)
+    return case
+
+
+def _make_case(rnd: Any, thm: str, shape: str) -> dict[str, Any]:
     # pylint: disable=too-many-branches
     if thm == "gauss_curv":
         r0 = rnd.choice(["1/2", "1/1", "3/2"])
@@ -632,6 +648,8 @@ def labels_of(case: dict[str, Any]) -> list[str]:
         labels.append("symbolic_coefficient")
     if field.get("law"):
         labels.append("via_laws_wrappers")
+    if case.get("fscale"):
+        labels.append("field_scale:" + ("weak" if M.Rational(case["fscale"]) < 1 else "strong"))
     v = case.get("variant") or {}
     if v:
         labels.append(f"rev_curve:{v['rev_curve']}")
